@@ -26,7 +26,7 @@ func runC19(cfg *vh.Config) error {
 	}
 	distinct := vh.Distinct{}
 	caseNo := 0
-	inputs := fmtInputs(cfg, "c19", cfg.Scale(900, 25000), cfg.Scale(500, 12000), cfg.Scale(300, 8000))
+	inputs := fmtInputs(cfg, "c19", cfg.Scale(750, 25000), cfg.Scale(400, 12000), cfg.Scale(250, 8000))
 	for _, in := range inputs {
 		src := in.src
 		inS := fmt.Sprintf("%q", src)
@@ -104,7 +104,14 @@ func runC19(cfg *vh.Config) error {
 				edits = dg.Val.edits
 				res.Count(fmt.Sprintf("edits_%d", min(len(edits), 5)))
 			}
-			cf.Terms = append(cf.Terms, fmt.Sprintf("CDiffs %s %d %s", vh.BytesTerm(src), kind, editsTerm(edits)))
+			var lsp []bcl.LspEdit
+			if kind == 0 {
+				lg := guard(5*time.Second, func() []bcl.LspEdit { l, _ := bcl.LspFormat(src); return l })
+				if lg.Panic == nil && !lg.Timeout {
+					lsp = lg.Val
+				}
+			}
+			cf.Terms = append(cf.Terms, fmt.Sprintf("CDiffs %s %d %s %s", vh.BytesTerm(src), kind, editsTerm(edits), lspTerm(lsp)))
 			res.Cases = append(res.Cases, vh.CaseRec{Case: caseNo, Stream: in.stream, Input: inS, Impl: map[string]any{"kind": kind, "edits": fmt.Sprint(edits)}})
 			if fmtOK && len(src) < 60 && len(edits) > 0 {
 				res.Sample(map[string]any{"input": src, "edits": fmt.Sprint(edits)}, 8)
